@@ -91,6 +91,19 @@ def main():
         if res['links'] != '1':
             ck.spec_failure('links', 'function->wrapper link without matching wrapper->function link', replay)
         d = dbfile.parse(data, fl['Type.F_array'])
+        # a flag that announces a cross reference and the reference itself go together: "has a return value" <-> a return type,
+        # "has a setter / getter / ..." <-> a function index (a flag without its index is a reference to nothing)
+        for wi_, w_ in d['wrappers'].items():
+            rt_ = d['types'].get(w_['return_type'])
+            returns_ = bool(w_['return_type']) and not (rt_ is not None and rt_['true_name'] == 'void')
+            if bool(w_['flags'] & fl['FunctionWrapper.F_has_return']) != returns_:
+                ck.spec_failure('links:flag-without-reference', 'wrapper %s (%s): has-return flag %d, return type index %d' %
+                                (wi_, w_['name'] or w_['unique_name'], bool(w_['flags'] & fl['FunctionWrapper.F_has_return']), w_['return_type']), replay)
+        for ei_, e_ in d['elements'].items():
+            for fk_, idx_ in (('F_has_getter', 'getter'), ('F_has_setter', 'setter'), ('F_has_has_function', 'has'), ('F_has_clear_function', 'clear'), ('F_has_del_function', 'del'),
+                              ('F_has_insert_function', 'insert'), ('F_has_getkey_function', 'getkey')):
+                if idx_ in e_ and bool(e_['flags'] & fl['Element.' + fk_]) != bool(e_[idx_]):
+                    ck.spec_failure('links:flag-without-reference', 'element %s: flag %s is %d, %s index %d' % (e_['scoped_name'], fk_, bool(e_['flags'] & fl['Element.' + fk_]), idx_, e_[idx_]), replay)
         un = [w['unique_name'] for w in d['wrappers'].values() if w['unique_name']]
         if len(un) != len(set(un)):
             ck.spec_failure('unique-names', 'two wrappers share a unique name', replay)
